@@ -301,6 +301,24 @@ pub fn worker(w: &mut Worker) {
         }
     }
 
+    // Phase B2: one awkward argument among many plain ones (first, middle, last of 4, 6 and 9): what
+    // an argument does to the scanner's state must not reach the arguments behind it
+    {
+        let awkward = strings_upto(tier.pick(3, 4));
+        for a in &awkward {
+            if a.is_empty() {
+                continue;
+            }
+            for k in [4usize, 6, 9] {
+                for pos in [0, k / 2, k - 1] {
+                    let mut args: Vec<String> = (0..k).map(|i| format!("p{}", i)).collect();
+                    args[pos] = a.clone();
+                    run_args(w, args);
+                }
+            }
+        }
+    }
+
     // Phase C: scripts of n lines: order and 1-based line numbers, LF and CRLF, final newline or not.
     let line_pool: Vec<(String, PI)> = {
         let mk = |l: Option<&str>, o: Option<&str>, c: Option<&str>, args: &[&str], st: Style| {
@@ -403,7 +421,7 @@ pub fn crash_sig(_case: &Value, kind: &str) -> String {
     kind.to_string()
 }
 
-pub const RULE: &str = "enumeration (no duplicates by construction): A) every instruction shape (label x output x command, 64, names with dots, '::', '-', '_', digits and non-ASCII letters) x every rendering style (quote-when-optional, 1|3 separator spaces, 3 leads, 6 trails incl. comments, 4 '=' spacings) x 17 argument lists (up to 8 arguments); B) every argument string up to the length bound over the 16-character alphabet {a n SP \" \\ # = : $ { % TAB LF CR NBSP e-acute}; a TAB inside an argument is written both as \\t and raw, as 1, 2 and 3 arguments, x 3 shapes x 16 styles; C) every script of up to n lines from a pool of 12 lines x LF/CRLF x final line break. Oracle: parse_text(render(i)) == i. A case is non-trivial when a label or output is present or an argument needs quoting or escaping; states = distinct outcome classes (shape, argument count, character classes per argument), transitions = parse_text calls";
+pub const RULE: &str = "enumeration (no duplicates by construction): A) every instruction shape (label x output x command, 64, names with dots, '::', '-', '_', digits and non-ASCII letters) x every rendering style (quote-when-optional, 1|3 separator spaces, 3 leads, 6 trails incl. comments, 4 '=' spacings) x 17 argument lists (up to 8 arguments); B) every argument string up to the length bound over the 16-character alphabet {a n SP \" \\ # = : $ { % TAB LF CR NBSP e-acute}; a TAB inside an argument is written both as \\t and raw, as 1, 2 and 3 arguments, and (strings up to length 3, thorough 4) as the first, middle or last of 4, 6 and 9 arguments, x 3 shapes x 16 styles; C) every script of up to n lines from a pool of 12 lines x LF/CRLF x final line break. Oracle: parse_text(render(i)) == i. A case is non-trivial when a label or output is present or an argument needs quoting or escaping; states = distinct outcome classes (shape, argument count, character classes per argument), transitions = parse_text calls";
 pub const ASSUMPTIONS: &[&str] = &["characters outside the alphabet behave like 'a' or 'e-acute' (the scanner has no other special characters)", "names are restricted to the listed labels/outputs/commands"];
 pub const EXHAUSTIVE: bool = true;
 pub const WALL_CAP_S: (u64, u64) = (50, 1500);
